@@ -11,7 +11,7 @@ import z3
 
 from . import mapper
 from .checklib import log, Outcome, write_evidence
-from .frontend import load_program, Native
+from .frontend import load_program, Native, REPO
 from .interp import Interp
 from .models import iter_of
 from .symstr import SStr, chars_of, normalize
@@ -208,7 +208,7 @@ class Dec:
 def run_case(prog, npat, lens, stats, classes=None):
     """all paths of build_service_text on npat symbolic patterns with the given lengths (parallel work units)"""
     from . import parexplore
-    outs, npaths, steps, z3c = parexplore.run('mirsym.esccheck', 'c17_path', (npat, tuple(lens)), 'c17_summary', cut_at=8 if sum(lens) >= 3 else 6)
+    outs, npaths, steps, z3c = parexplore.run('mirsym.esccheck', 'c17_path', (npat, tuple(lens)), 'c17_summary', cut_at=8 if sum(l if isinstance(l, int) else len(l) for l in lens) >= 3 else 6)
     stats['paths'] += npaths
     stats['mir_steps'] += steps
     stats['z3_checks'] += z3c
@@ -254,9 +254,12 @@ def _c17_body(prog, it, npat, lens, stats):
         if True:
             pats = []
         for p in range(npat):
-            cs = [z3.BitVec('c%d_%d' % (p, j), 32) for j in range(lens[p])]
+            # lens[p]: a length (all characters symbolic) or a template (tuple of code points, None = symbolic character)
+            tmpl = (None,) * lens[p] if isinstance(lens[p], int) else lens[p]
+            cs = [z3.BitVec('c%d_%d' % (p, j), 32) if t is None else t for j, t in enumerate(tmpl)]
             for c in cs:
-                it.assume(scalar(c))
+                if not isinstance(c, int):
+                    it.assume(scalar(c))
             pats.append(cs)
         it._pats = pats
         if True:
@@ -287,7 +290,7 @@ def _c17_body(prog, it, npat, lens, stats):
                 want.append(list(b'--exclude'))
                 b = []
                 for c in cs_:
-                    b.extend(dec.utf8(c))
+                    b.extend(list(chr(c).encode()) if isinstance(c, int) else dec.utf8(c))
                 want.append(b)
             want += [list(b'--dev-file'), [ord('/'), '<%I>']]
             if len(argv) != len(want):
@@ -320,7 +323,7 @@ def _model_pats(it, pats, extra):
     for cs in pats:
         s = ''
         for c in cs:
-            v = m.eval(c, model_completion=True).as_long()
+            v = c if isinstance(c, int) else m.eval(c, model_completion=True).as_long()
             if v == 0 or v > 0x10FFFF or 0xD800 <= v <= 0xDFFF:
                 v = ord('a')
             s += chr(v)
@@ -367,6 +370,75 @@ def role_of(what):
     return what
 
 
+def _show_lens(lens):
+    return [l if isinstance(l, int) else ''.join('?' if c is None else chr(c) for c in l) for l in lens]
+
+
+def code_dictionary(repo):
+    """tokens of the string literals of the code under test (the functions of src/udev_utils.rs reachable from
+    build_service_text, and the constants they name): whole words, {..} placeholders, %x and $x forms, escape sequences.
+    A pattern that happens to contain one of them is where a later textual substitution, a placeholder or a specifier of
+    the tool's own making can collide with user text."""
+    import re
+    try:
+        src = open(os.path.join(repo, 'src', 'udev_utils.rs'), encoding='utf-8').read()
+    except OSError:
+        return []
+    # blank out literals and comments for brace matching (same length, so spans carry over)
+    blank = re.sub(r'"(?:[^"\\]|\\.)*"|\'(?:[^\'\\]|\\.)[^\']{0,8}\'|//[^\n]*', lambda m: ' ' * len(m.group(0)), src)
+    fns = {}
+    for m in re.finditer(r'\bfn\s+([A-Za-z_0-9]+)', blank):
+        i = blank.find('{', m.end())
+        if i < 0:
+            continue
+        d, j = 0, i
+        while j < len(blank):
+            if blank[j] == '{':
+                d += 1
+            elif blank[j] == '}':
+                d -= 1
+                if d == 0:
+                    break
+            j += 1
+        fns[m.group(1)] = (m.start(), j + 1)
+    todo = ['build_service_text']
+    spans = []
+    seen = set()
+    while todo:
+        f = todo.pop()
+        if f in seen or f not in fns or f == 'tests':
+            continue
+        seen.add(f)
+        a_, b_ = fns[f]
+        spans.append((a_, b_))
+        for g in re.findall(r'(?<![.\w])([A-Za-z_0-9]+)\s*(?:::<[^>]*>)?\(', blank[a_:b_]):
+            if g in fns and g not in seen:
+                todo.append(g)
+    body = ''.join(blank[a_:b_] for a_, b_ in spans)
+    for m in re.finditer(r'^\s*(?:pub\s+)?(?:const|static)\s+([A-Z_0-9]+)\s*:[^=]*=', blank, re.M):
+        if re.search(r'\b%s\b' % m.group(1), body):
+            e = blank.find(';', m.end())
+            spans.append((m.start(), e if e > 0 else m.end()))
+    src = '\n'.join(src[a_:b_] for a_, b_ in spans)
+    lits = re.findall(r'"((?:[^"\\]|\\.)*)"', src, re.S)
+    toks = []
+
+    def add(t):
+        if t and len(t) <= 40 and t not in toks and '\x00' not in t:
+            toks.append(t)
+    for l in lits:
+        try:
+            l = bytes(l, 'utf-8').decode('unicode_escape').encode('latin-1', 'ignore').decode('utf-8', 'ignore') if '\\' in l else l
+        except Exception:
+            pass
+        l = re.sub(r'\\\n\s*', '', l)            # line continuation inside a literal
+        for w in l.split():
+            add(w)
+        for m in re.findall(r'\{[^{}\s]*\}|%[A-Za-z%]|\$[A-Za-z_{$][A-Za-z_}]*|\\\\x[0-9a-fA-F]{2}|--[a-z-]+|/[A-Za-z0-9_/.]+', l):
+            add(m)
+    return toks
+
+
 def check(prop, tier, seed):
     t0 = time.time()
     prog = load_program()
@@ -377,14 +449,35 @@ def check(prop, tier, seed):
     cases = [(1, [1]), (1, [2]), (2, [1, 1])]
     if not quick:
         cases += [(1, [3]), (2, [2, 1]), (2, [1, 2]), (3, [1, 1, 1])]
+    # dictionary leg: tokens of the code's own string literals as patterns, alone and next to one symbolic character
+    toks = code_dictionary(REPO)
+    rngd = random.Random(seed)
+    special = [t for t in toks if any(ch in t for ch in '{}%$\\\'"*?;')]
+    plain = [t for t in toks if t not in special]
+    cap = 40 if quick else 160
+    if len(special) > cap:
+        special = sorted(rngd.sample(special, cap), key=toks.index)
+    if len(special) + len(plain) > cap:
+        plain = sorted(rngd.sample(plain, max(0, cap - len(special))), key=toks.index)
+    toks = special + plain
+    ndict = 0
+    for t in toks:
+        tp = tuple(ord(ch) for ch in t)
+        cases.append((1, [tp]))
+        cases.append((1, [tp + (None,)]) if (ndict % 2 == 0 or not quick) else (1, [(None,) + tp]))
+        if not quick:
+            cases.append((1, [(None,) + tp]))
+            cases.append((2, [tp, 1]))
+        ndict += 1
     viols = []
     case_stats = []
     for npat, lens in cases:
         p0 = stats['paths']
         tt = time.time()
         viols += run_case(prog, npat, lens, stats)
-        case_stats.append({'patterns': npat, 'lengths': lens, 'paths': stats['paths'] - p0, 'secs': round(time.time() - tt, 1)})
-        log('[C17] %d pattern(s) of lengths %r: %d paths, %.1fs, violations so far %d' % (npat, lens, stats['paths'] - p0, time.time() - tt, len(viols)))
+        case_stats.append({'patterns': npat, 'lengths': _show_lens(lens), 'paths': stats['paths'] - p0, 'secs': round(time.time() - tt, 1)})
+        if stats['paths'] - p0 > 1 or time.time() - tt > 2:
+            log('[C17] %d pattern(s) %s: %d paths, %.1fs, violations so far %d' % (npat, _show_lens(lens), stats['paths'] - p0, time.time() - tt, len(viols)))
     native = Native()
     seen = {}
     for what, pats in viols:
